@@ -47,7 +47,9 @@ class sx_int(metaclass=_IntMeta):
         acc = 0
         for b in items:
             if isinstance(b, SInt) and (b.lo < 0 or b.hi > 255):
-                raise EngineError("byte out of range")
+                if core.EX.is_sat(z3.Or(b._cmp_expr(0, "lt"), b._cmp_expr(255, "gt"))):
+                    raise EngineError("byte out of range")
+                b = SInt.mk(b.e, max(b.lo, 0), min(b.hi, 255))   # proved within 0..255 on this path
             acc = (acc << 8) | b
         return acc
 
